@@ -8,7 +8,7 @@ from .. import sym as S
 from ..engine import Check
 from ..loader import AnalysisError
 from ..recon import _own_nodes
-from ..rulelib import (_typestate, calls_named, carried_with_entry, check_const, check_layout, conds_sym, eval_conds,
+from ..rulelib import (split_alternatives, _typestate, calls_named, carried_with_entry, check_const, check_layout, conds_sym, eval_conds,
                        func_outcomes, insts_in_func, loop_carried, loops_of, reach_table)
 
 LEVEL = "other"
@@ -156,32 +156,29 @@ def hyperv_file(chk: Check):
     okl = False
     if links:
         l = links[0]
-        src = ast.unparse(l)
-        act = [n for n in ast.walk(l) if isinstance(n, ast.Assign) and isinstance(n.value, ast.Subscript) and isinstance(n.value.slice, ast.Constant) and n.value.slice.value == 0]
-        conts = [n for n in ast.walk(l) if isinstance(n, ast.Continue)]
-        free_skip = False
-        for c in conts:
-            ic = conds_sym(chk, init, c)
-            free_skip = free_skip or any(cc[0] == "cmp" and cc[1] == "==" and S.is_const(cc[3]) and int(cc[3][1]) == KDT["Free"] and p for cc, p in ic)
-        it2 = R.expr(init, l.iter if not any(isinstance(x, ast.For) for x in l.body) else [x for x in l.body if isinstance(x, ast.For)][0].iter,
-                     init.cfg.node_of[l])
         inner2 = [x for x in ast.walk(l) if isinstance(x, ast.For) and x is not l]
         tgt_loop = inner2[0] if inner2 else l
         itE = R.expr(init, tgt_loop.iter, init.cfg.node_of[tgt_loop], binds={"__exclude_loop__": tgt_loop})
         EE = ("iter", itE, None)
-        ek_ = chk.prog.cls(REL, "HyperVStorageKeyTableEntry").key
+        # the entries linked are those of the first (highest sequence number) table of each index
+        act = itE[0] == "attr" and itE[2] == "entries" and itE[1][0] == "sub" and itE[1][2] == S.C(0)
+        par_t, type_t = ("attr", EE, "parent"), ("attr", EE, "type")
         roles = {}
         for st_ in ast.walk(tgt_loop):
             if isinstance(st_, ast.Assign) and isinstance(st_.targets[0], ast.Subscript):
-                base = R.expr(init, st_.targets[0].value, init.cfg.node_of[st_])
+                base0 = R.expr(init, st_.targets[0].value, init.cfg.node_of[st_])
                 key = R.expr(init, st_.targets[0].slice, init.cfg.node_of[st_])
                 val = R.expr(init, st_.value, init.cfg.node_of[st_])
-                conds_ = conds_sym(chk, init, st_)
-                par_t = ("attr", EE, "parent")
-                tab_ = reach_table(conds_, {"p": par_t}, [{"p": None}, {"p": 1}])
-                where_ = "children" if (base[0] == "attr" and base[2] == "children" and base[1] == par_t) else "root" if base == R.self_attr(hk, "root") else "?"
-                roles[where_] = (key == ("attr", EE, "key"), val == EE, tab_)
-        okl = bool(act) and free_skip and roles.get("children") == (True, True, [False, True]) and roles.get("root") == (True, True, [True, False])
+                for extra, base in split_alternatives(base0):
+                    conds_ = conds_sym(chk, init, st_) + [(c, p) for c, p in extra]
+                    # reached for (parent absent / present) x (entry free / in use); a parent is an entry object (truthy)
+                    tab_ = reach_table(conds_, {"p": par_t, "t": type_t},
+                                       [{"p": None, "t": S.EnumConst(KDT["Node"])}, {"p": 1, "t": S.EnumConst(KDT["Node"])},
+                                        {"p": None, "t": S.EnumConst(KDT["Free"])}, {"p": 1, "t": S.EnumConst(KDT["Free"])}])
+                    where_ = "children" if (base[0] == "attr" and base[2] == "children" and base[1] == par_t) else "root" if base == R.self_attr(hk, "root") else "?"
+                    roles[where_] = (key == ("attr", EE, "key"), val == EE, [bool(x) for x in tab_])
+        okl = bool(act) and roles.get("children") == (True, True, [False, True, False, False]) and roles.get("root") == (True, True, [True, False, False, False]) \
+            and set(roles) == {"children", "root"}
     chk.decide(okl, "K-PATH", "tree-linking", links[0] if links else init.func,
                "the active table ([0]) of each index is linked: Free entries skipped, entries with a parent become its children, others roots")
 
